@@ -17,6 +17,16 @@ import (
 	"github.com/koron-go/z80/internal/tinycpm"
 )
 
+// capped keeps the first 70000 console bytes (a runaway print loop would otherwise produce gigabytes)
+type capped struct{ bytes.Buffer }
+
+func (c *capped) Write(p []byte) (int, error) {
+	if c.Len() < 70000 {
+		c.Buffer.Write(p)
+	}
+	return len(p), nil
+}
+
 func main() {
 	in := bufio.NewScanner(os.Stdin)
 	in.Buffer(make([]byte, 1<<20), 1<<28)
@@ -42,7 +52,8 @@ func main() {
 			id := f[1]
 			n := func(i int) int { v, _ := strconv.Atoi(f[i]); return v }
 			mem, io := tinycpm.New()
-			var con, warn bytes.Buffer
+			var con capped
+			var warn bytes.Buffer
 			io.SetStdout(&con)
 			io.SetWarnLogger(log.New(&warn, "", 0))
 			log.SetOutput(&warn)
@@ -56,7 +67,7 @@ func main() {
 			cpu := &z80.CPU{Memory: mem, IO: io}
 			cpu.PC = tinycpm.Start
 			cpu.SP = uint16(sp)
-			ctx, cancel := context.WithTimeout(context.Background(), 3*time.Second)
+			ctx, cancel := context.WithTimeout(context.Background(), 500*time.Millisecond)
 			err := cpu.Run(ctx)
 			cancel()
 			code := 0
